@@ -1405,6 +1405,42 @@ func c17durable(c *eng.Ctx, F *c17fields) {
 			c.Cut(f, "nil return", eng.SuccessReturns(f, 0), eng.Or(eng.Guard{Desc: pOK.Desc, Edges: pOK.Edges}, c17guard("nothing to persist (boolean flag false)", c17boolPhiEdges(f, false))), nil)
 		}
 	}
+	// ---- backup/restore: a restored key gets the archive it was backed up with (whenever the backup carries one),
+	// before the policy is persisted; persisting first builds an archive of empty slots that later overwrites the
+	// live keys when min_decryption_version is lowered again (seed C17-b)
+	if f := c.Fn("keysutil.(*LockManager).RestorePolicy"); f != nil {
+		c.Clause("R4", "C17.3")
+		sa := instrsOf(eng.Calls(f, `^keysutil\.\(\*Policy\)\.storeArchive$`))
+		ps := instrsOf(eng.Calls(f, persistPat))
+		if c.Floor(f, "storeArchive in RestorePolicy", len(sa), 1) && c.Floor(f, "Persist in RestorePolicy", len(ps), 1) {
+			has := eng.CondEdges(f, `\.ArchivedKeys == nil$`, false)
+			site := "on{backup carries archived keys} the archive is restored before the policy is persisted"
+			if len(has) == 0 {
+				c.Violation(f, site, f.Pos(), "RestorePolicy no longer tests keyData.ArchivedKeys != nil", nil)
+			} else if h := eng.Reach(eng.Query{Fn: f, StartEdges: has, Barriers: sa, Target: eng.IsTarget(ps)}); h != nil {
+				c.Violation(f, site, h.Instr.Pos(), "the policy can be persisted although the backup's archive was not written back (the restore of the archive became conditional on something else than its presence)", h.Witness)
+			} else {
+				c.OK(f, site, sa[0].Pos(), "every path from ArchivedKeys != nil to Persist passes storeArchive")
+			}
+			c.Clause("R5", "C17.3")
+			for _, x := range sa {
+				a := x.(ssa.CallInstruction).Common().Args
+				s := eng.Expr(a[len(a)-1])
+				if strings.HasSuffix(s, ".ArchivedKeys") {
+					c.OK(f, "archive restored = archive of the backup", x.Pos(), s)
+				} else {
+					c.Violation(f, "archive restored = archive of the backup", x.Pos(), "storeArchive is given "+s, nil)
+				}
+			}
+			c.Clause("R2", "C17.3")
+			c.Cut(f, "restored policy persisted", ps, eng.Or(eng.GCallOK(f, `^keysutil\.\(\*Policy\)\.storeArchive$`), eng.G(f, `\.ArchivedKeys == nil$`, true)), nil)
+		}
+	}
+	if f := c.Fn("keysutil.(*Policy).Backup"); f != nil {
+		c.Clause("R4", "C17.3")
+		la := eng.Calls(f, `^keysutil\.\(\*Policy\)\.LoadArchive$`)
+		c.Floor(f, "backup reads the archive", len(la), 1)
+	}
 	// ---- every method that bumps the version and persists has the rollback
 	c.Clause("R4", "C17.3")
 	n := 0
